@@ -207,6 +207,10 @@ def field_type_from_python_type_name(python_type_name):
 
 
 def types_are_comparable(left_type, right_type, operator):
+    if left_type is None or right_type is None:
+        # an operand whose type could not be resolved is comparable with nothing
+        return False
+
     if left_type is "NULL" or right_type is "NULL":
         return True
 
